@@ -1351,3 +1351,729 @@ Proof.
     specialize (IH H2). destruct (t' =? t); lia. }
   nia.
 Qed.
+
+(** ================================================================== Part C *)
+(** raw per-user quantities: [a] = signed amount decayed to the global week, [t] = locked tokens,
+    [F] = first bucket id *)
+Definition r_live (a t : Z) : bool := (0 <? a) && (0 <? t).
+Definition r_bkt (F a t : Z) : Z := F + a / t / WK.
+Definition r_tokb (F b a t : Z) : Z := if r_live a t && (r_bkt F a t =? b) then t else 0.
+Definition r_surb (F b a t : Z) : Z := if r_live a t && (r_bkt F a t =? b) then a mod (t * WK) else 0.
+Definition r_ltok (a t : Z) : Z := if r_live a t then t else 0.
+
+Lemma div_decomp a t : 0 < t ->
+  exists q r, a = t * WK * q + r /\ 0 <= r < t * WK /\ a / t / WK = q /\ a mod (t * WK) = r /\
+              (a - WK * t) / t / WK = q - 1 /\ (a - WK * t) mod (t * WK) = r.
+Proof.
+  intros Ht. pose proof week_pos as HW. assert (Htw : 0 < t * WK) by nia.
+  exists (a / (t * WK)), (a mod (t * WK)).
+  pose proof (Z.div_mod a (t * WK)). pose proof (Z.mod_pos_bound a (t * WK) Htw).
+  split; [lia|]. split; [lia|]. split; [apply Z.div_div; lia|]. split; [reflexivity|].
+  replace (a - WK * t) with (a + (-1) * (t * WK)) by ring.
+  rewrite Z.div_div by lia. rewrite Z.div_add by lia. rewrite Z.mod_add by lia. split; [lia | reflexivity].
+Qed.
+
+(** one week of the global shift, seen from one user: [a' = a - 7t], first bucket F -> F+1 *)
+Lemma raw_shift a t F : 0 <= t ->
+  let a' := a - WK * t in
+  (forall b, b <> F -> b <> F + 1 -> r_tokb (F + 1) b a' t = r_tokb F b a t) /\
+  r_tokb (F + 1) F a' t = 0 /\
+  0 <= r_tokb (F + 1) (F + 1) a' t <= r_tokb F (F + 1) a t /\
+  (forall b, b <> F -> r_surb (F + 1) b a' t = r_surb F b a t) /\
+  r_surb (F + 1) F a' t = 0 /\
+  r_ltok a t - r_tokb F F a t - r_tokb F (F + 1) a t = r_ltok a' t - r_tokb (F + 1) (F + 1) a' t /\
+  Z.max 0 a - WK * (r_ltok a t - r_tokb F F a t) - r_surb F F a t = Z.max 0 a' /\
+  0 <= r_ltok a t - r_tokb F F a t /\ 0 <= r_surb F F a t.
+Proof.
+  intros Ht a'. pose proof week_pos as HW.
+  destruct (Z.eq_dec t 0) as [->|Htz].
+  - subst a'. unfold r_tokb, r_surb, r_ltok, r_live. rewrite Z.ltb_irrefl, !andb_false_r. simpl.
+    repeat split; intros; lia.
+  - assert (Htp : 0 < t) by lia.
+    destruct (div_decomp a t Htp) as (q & r & Ha & Hr & Hq & Hm & Hq' & Hm').
+    subst a'. unfold r_tokb, r_surb, r_ltok, r_live, r_bkt. rewrite Hq, Hm, Hq', Hm'.
+    assert (Et : (0 <? t) = true) by (apply Z.ltb_lt; lia). rewrite Et, !andb_true_r.
+    replace (F + 1 + (q - 1)) with (F + q) by lia.
+    set (tw := t * WK) in *. assert (Htw : WK * t = tw) by (unfold tw; ring). rewrite Htw.
+    assert (Hcases : q <= -1 \/ q = 0 \/ q = 1 \/ 2 <= q) by lia.
+    assert (Hb : (q <= -1 -> a < 0) /\ (2 <= q -> 2 * tw <= a - r)).
+    { split; intros; nia. }
+    destruct Hb as (Hneg & Hbig). clearbody tw. clear Hq Hm Hq' Hm'.
+    destruct Hcases as [Hc|[Hc|[Hc|Hc]]].
+    + specialize (Hneg Hc).
+      assert (E1 : (0 <? a) = false) by (apply Z.ltb_ge; lia).
+      assert (E2 : (0 <? a - tw) = false) by (apply Z.ltb_ge; lia).
+      rewrite E1, E2. simpl. repeat split; intros; lia.
+    + subst q. assert (Har : a = r) by lia.
+      assert (E2 : (0 <? a - tw) = false) by (apply Z.ltb_ge; lia). rewrite E2. simpl.
+      rewrite Z.add_0_r, Z.eqb_refl.
+      assert (E3 : (F =? F + 1) = false) by (apply Z.eqb_neq; lia). rewrite E3.
+      destruct (0 <? a) eqn:E1; simpl.
+      * apply Z.ltb_lt in E1. repeat split; intros; try lia.
+        -- destruct (F =? b) eqn:Eb; [apply Z.eqb_eq in Eb; lia | reflexivity].
+        -- destruct (F =? b) eqn:Eb; [apply Z.eqb_eq in Eb; lia | reflexivity].
+      * apply Z.ltb_ge in E1. repeat split; intros; lia.
+    + subst q. assert (Har : a = tw + r) by lia.
+      assert (E1 : (0 <? a) = true) by (apply Z.ltb_lt; lia). rewrite E1. simpl.
+      assert (E3 : (F + 1 =? F) = false) by (apply Z.eqb_neq; lia). rewrite E3.
+      rewrite Z.eqb_refl.
+      destruct (0 <? a - tw) eqn:E2; simpl.
+      * apply Z.ltb_lt in E2. repeat split; intros; try lia.
+      * apply Z.ltb_ge in E2. assert (r = 0) by lia. subst r. repeat split; intros; try lia.
+        -- destruct (F + 1 =? b) eqn:Eb; [apply Z.eqb_eq in Eb; lia | reflexivity].
+        -- destruct (F + 1 =? b) eqn:Eb; [apply Z.eqb_eq in Eb; lia | reflexivity].
+    + specialize (Hbig Hc).
+      assert (E1 : (0 <? a) = true) by (apply Z.ltb_lt; lia).
+      assert (E2 : (0 <? a - tw) = true) by (apply Z.ltb_lt; lia). rewrite E1, E2. simpl.
+      assert (E3 : (F + q =? F) = false) by (apply Z.eqb_neq; lia).
+      assert (E4 : (F + q =? F + 1) = false) by (apply Z.eqb_neq; lia). rewrite E3, E4.
+      repeat split; intros; lia.
+Qed.
+
+(** ------------------------------------------------------------------ sums over the recorded users *)
+Definition u_tok (p : progress) : Z := en_tok (pr_en p).
+
+Definition psum (f : progress -> Z) (l : list (Z * progress)) : Z :=
+  fold_right (fun up acc => f (snd up) + acc) 0 l.
+
+Definition c_energy (L : Z) (p : progress) : Z := energy_at p L.
+Definition c_ltok (L : Z) (p : progress) : Z := r_ltok (decay_amt p L) (u_tok p).
+Definition c_tokb (L F b : Z) (p : progress) : Z := r_tokb F b (decay_amt p L) (u_tok p).
+Definition c_surb (L F b : Z) (p : progress) : Z := r_surb F b (decay_amt p L) (u_tok p).
+
+Definition users_ok (L : Z) (l : list (Z * progress)) : Prop :=
+  NoDup (map fst l) /\ Forall (fun up => 0 <= u_tok (snd up) /\ pr_week (snd up) <= L) l.
+
+Lemma psum_ext f g l : (forall up, In up l -> f (snd up) = g (snd up)) -> psum f l = psum g l.
+Proof.
+  induction l as [|up t IH]; simpl; intros Hfg; [reflexivity|].
+  rewrite (Hfg up) by (left; reflexivity). rewrite IH; [reflexivity|]. intros; apply Hfg; right; assumption.
+Qed.
+
+Lemma psum_le f g l : (forall up, In up l -> f (snd up) <= g (snd up)) -> psum f l <= psum g l.
+Proof.
+  induction l as [|up t IH]; simpl; intros Hfg; [lia|].
+  specialize (Hfg up (or_introl eq_refl)) as H1. assert (psum f t <= psum g t) by (apply IH; intros; apply Hfg; right; assumption). lia.
+Qed.
+
+Lemma psum_nonneg f l : (forall up, In up l -> 0 <= f (snd up)) -> 0 <= psum f l.
+Proof.
+  induction l as [|up t IH]; simpl; intros Hf; [lia|].
+  specialize (Hf up (or_introl eq_refl)) as H1. assert (0 <= psum f t) by (apply IH; intros; apply Hf; right; assumption). lia.
+Qed.
+
+Lemma psum_lin f g h k l : (forall up, In up l -> f (snd up) - k * g (snd up) - h (snd up) = 0) ->
+  psum f l - k * psum g l - psum h l = 0.
+Proof.
+  induction l as [|up t IH]; simpl; intros Hf; [lia|].
+  specialize (Hf up (or_introl eq_refl)) as H1.
+  assert (psum f t - k * psum g t - psum h t = 0) by (apply IH; intros; apply Hf; right; assumption). lia.
+Qed.
+
+Lemma psum_member f l u p : (forall up, In up l -> 0 <= f (snd up)) -> In (u, p) l -> f p <= psum f l.
+Proof.
+  induction l as [|up t IH]; simpl; intros Hf Hin; [destruct Hin|].
+  pose proof (Hf up (or_introl eq_refl)) as H1.
+  assert (Ht : 0 <= psum f t) by (apply psum_nonneg; intros; apply Hf; right; assumption).
+  destruct Hin as [->|Hin]; [simpl; lia|].
+  assert (f p <= psum f t) by (apply IH; [intros; apply Hf; right; assumption | exact Hin]). lia.
+Qed.
+
+(** the bookkeeping invariant for user list [l] at global week [L] with first bucket [F]:
+    every bucket other than the first holds exactly the tokens of the users expiring in it, the first
+    bucket at least those (it may also hold tokens of entries that ran out exactly at the week boundary;
+    they leave with the next shift), every bucket holds exactly the surplus energies of its users, the
+    total of locked tokens is the live users' tokens plus that slack, and the total energy is the sum of
+    the users' decayed energies *)
+Definition BInv (l : list (Z * progress)) (L F : Z) (bt bs : list (Z * Z)) (T E : Z) : Prop :=
+  (forall b, b <> F -> aget bt b = psum (c_tokb L F b) l) /\
+  psum (c_tokb L F F) l <= aget bt F /\
+  (forall b, aget bs b = psum (c_surb L F b) l) /\
+  T - aget bt F = psum (c_ltok L) l - psum (c_tokb L F F) l /\
+  E = psum (c_energy L) l.
+
+Lemma decay_amt_succ p L : decay_amt p (L + 1) = decay_amt p L - WK * u_tok p.
+Proof. unfold decay_amt, u_tok. ring. Qed.
+
+(** one week of the global shift is exact (no saturation, no underflow) and re-establishes the invariant *)
+Lemma shift_one l L F bt bs T E :
+  Forall (fun up => 0 <= u_tok (snd up)) l -> BInv l L F bt bs T E ->
+  aget bt F <= T /\ (T - aget bt F) * WK + aget bs F <= E /\
+  BInv l (L + 1) (F + 1) (aset bt F 0) (aset bs F 0) (T - aget bt F)
+       (E - ((T - aget bt F) * WK + aget bs F)).
+Proof.
+  intros Hok (Hb & HF & Hs & HT & HE).
+  assert (Hraw : forall up, In up l -> let p := snd up in
+            (forall b, b <> F -> b <> F + 1 -> c_tokb (L + 1) (F + 1) b p = c_tokb L F b p) /\
+            c_tokb (L + 1) (F + 1) F p = 0 /\
+            0 <= c_tokb (L + 1) (F + 1) (F + 1) p <= c_tokb L F (F + 1) p /\
+            (forall b, b <> F -> c_surb (L + 1) (F + 1) b p = c_surb L F b p) /\
+            c_surb (L + 1) (F + 1) F p = 0 /\
+            c_ltok L p - c_tokb L F F p - c_tokb L F (F + 1) p = c_ltok (L + 1) p - c_tokb (L + 1) (F + 1) (F + 1) p /\
+            c_energy L p - WK * (c_ltok L p - c_tokb L F F p) - c_surb L F F p = c_energy (L + 1) p /\
+            0 <= c_ltok L p - c_tokb L F F p /\ 0 <= c_surb L F F p).
+  { intros up Hin p. rewrite Forall_forall in Hok. specialize (Hok _ Hin).
+    unfold c_tokb, c_surb, c_ltok, c_energy, energy_at. rewrite decay_amt_succ.
+    apply raw_shift. exact Hok. }
+  assert (Hd : 0 <= psum (c_ltok L) l - psum (c_tokb L F F) l).
+  { assert (psum (c_tokb L F F) l <= psum (c_ltok L) l); [|lia].
+    apply psum_le. intros up Hin. destruct (Hraw up Hin) as (_ & _ & _ & _ & _ & _ & _ & H8 & _). lia. }
+  split; [lia|].
+  (* energy algebra *)
+  assert (HEn : psum (c_energy L) l - WK * (psum (c_ltok L) l - psum (c_tokb L F F) l) - psum (c_surb L F F) l
+                = psum (c_energy (L + 1)) l).
+  { clear - Hraw. induction l as [|up t IH]; simpl; [lia|].
+    destruct (Hraw up (or_introl eq_refl)) as (_ & _ & _ & _ & _ & _ & H7 & _).
+    assert (IH' : psum (c_energy L) t - WK * (psum (c_ltok L) t - psum (c_tokb L F F) t) - psum (c_surb L F F) t
+                  = psum (c_energy (L + 1)) t) by (apply IH; intros; apply Hraw; right; assumption).
+    simpl in H7. lia. }
+  assert (Hen1 : 0 <= psum (c_energy (L + 1)) l).
+  { apply psum_nonneg. intros. unfold c_energy. apply energy_at_nonneg. }
+  split; [rewrite HT, Hs, HE; lia|].
+  unfold BInv. split; [|split; [|split; [|split]]].
+  - intros b Hne. destruct (Z.eq_dec b F) as [->|HbF].
+    + rewrite aget_aset_same. symmetry. 
+      assert (psum (c_tokb (L + 1) (F + 1) F) l = psum (fun _ => 0) l).
+      { apply psum_ext. intros up Hin. apply (Hraw up Hin). }
+      rewrite H. clear. induction l; simpl; lia.
+    + rewrite aget_aset_other by congruence. rewrite Hb by exact HbF.
+      apply psum_ext. intros up Hin. symmetry. apply (Hraw up Hin); assumption.
+  - rewrite aget_aset_other by lia. rewrite Hb by lia.
+    apply psum_le. intros up Hin. apply (Hraw up Hin).
+  - intros b. destruct (Z.eq_dec b F) as [->|HbF].
+    + rewrite aget_aset_same. symmetry.
+      assert (psum (c_surb (L + 1) (F + 1) F) l = psum (fun _ => 0) l).
+      { apply psum_ext. intros up Hin. apply (Hraw up Hin). }
+      rewrite H. clear. induction l; simpl; lia.
+    + rewrite aget_aset_other by congruence. rewrite Hs.
+      apply psum_ext. intros up Hin. symmetry. apply (Hraw up Hin); assumption.
+  - rewrite aget_aset_other by lia. rewrite (Hb (F + 1)) by lia. rewrite HT.
+    clear - Hraw. induction l as [|up t IH]; simpl; [lia|].
+    destruct (Hraw up (or_introl eq_refl)) as (_ & _ & _ & _ & _ & H6 & _).
+    assert (IH' : psum (c_ltok L) t - psum (c_tokb L F F) t - psum (c_tokb L F (F + 1)) t =
+                  psum (c_ltok (L + 1)) t - psum (c_tokb (L + 1) (F + 1) (F + 1)) t)
+      by (apply IH; intros; apply Hraw; right; assumption).
+    simpl in H6. lia.
+  - rewrite HT, Hs, HE. lia.
+Qed.
+
+(** the shift loop: never fails, [safe_sub] never saturates, the invariant moves [n] weeks *)
+Lemma shift_n n : forall l L F bt bs T E,
+  Forall (fun up => 0 <= u_tok (snd up)) l -> BInv l L F bt bs T E ->
+  exists bt' bs' T' E',
+    shift_buckets n F bt bs T E = Ok (F + Z.of_nat n, bt', bs', T', E') /\
+    BInv l (L + Z.of_nat n) (F + Z.of_nat n) bt' bs' T' E'.
+Proof.
+  induction n as [|n IH]; intros l L F bt bs T E Hok Hinv.
+  - exists bt, bs, T, E. simpl. rewrite !Z.add_0_r. split; [reflexivity | exact Hinv].
+  - destruct (shift_one _ _ _ _ _ _ _ Hok Hinv) as (H1 & H2 & Hinv').
+    destruct (IH _ _ _ _ _ _ _ Hok Hinv') as (bt' & bs' & T' & E' & Hsh & Hinv'').
+    exists bt', bs', T', E'. split.
+    + simpl shift_buckets. unfold sub_chk. destruct (T <? aget bt F) eqn:Elt; [apply Z.ltb_lt in Elt; lia|].
+      simpl bind. unfold safe_sub.
+      destruct ((T - aget bt F) * WK + aget bs F <? E) eqn:Es.
+      * rewrite Hsh. f_equal. f_equal. f_equal. f_equal. f_equal. lia.
+      * apply Z.ltb_ge in Es. assert (Hz : E - ((T - aget bt F) * WK + aget bs F) = 0) by lia.
+        rewrite Hz in Hsh. rewrite Hsh. f_equal. f_equal. f_equal. f_equal. f_equal. lia.
+    + replace (L + Z.of_nat (S n)) with (L + 1 + Z.of_nat n) by lia.
+      replace (F + Z.of_nat (S n)) with (F + 1 + Z.of_nat n) by lia. exact Hinv''.
+Qed.
+
+(** ------------------------------------------------------------------ a user's entry is replaced *)
+Definition f_old (f : progress -> Z) (op : option progress) : Z :=
+  match op with Some p => f p | None => 0 end.
+
+Lemma pfind_notin l u : ~ In u (map fst l) -> pfind l u = None /\ pdel l u = l.
+Proof.
+  unfold pdel. induction l as [|[u' p'] t IH]; simpl; intros Hn; [split; reflexivity|].
+  destruct (u' =? u) eqn:E; [apply Z.eqb_eq in E; subst; exfalso; apply Hn; left; reflexivity|].
+  simpl. destruct IH as (I1 & I2); [intros Hin; apply Hn; right; exact Hin|]. rewrite I1, I2. split; reflexivity.
+Qed.
+
+Lemma psum_pset f l u pn : psum f (pset l u pn) = psum f l - f_old f (pfind l u) + f pn.
+Proof.
+  induction l as [|[u' p'] t IH]; simpl; [lia|].
+  destruct (u' =? u); simpl; [lia | rewrite IH; lia].
+Qed.
+
+Lemma psum_pdel f l u : NoDup (map fst l) -> psum f (pdel l u) = psum f l - f_old f (pfind l u).
+Proof.
+  induction l as [|[u' p'] t IH]; simpl; intros Hnd; [lia|].
+  inversion Hnd as [|? ? Hnin Hnd']; subst. unfold pdel in *. simpl.
+  destruct (u' =? u) eqn:E; simpl.
+  - apply Z.eqb_eq in E. subst u'. destruct (pfind_notin _ _ Hnin) as (_ & Hd). unfold pdel in Hd. rewrite Hd. lia.
+  - rewrite IH by exact Hnd'. lia.
+Qed.
+
+Lemma psum_progress_after f l u cw cur : NoDup (map fst l) ->
+  (en_amount cur = 0 -> f (mkProg cur cw) = 0) ->
+  psum f (progress_after l u cw cur) = psum f l - f_old f (pfind l u) + f (mkProg cur cw).
+Proof.
+  intros Hnd Hz. unfold progress_after. destruct (0 <? en_amount cur) eqn:E.
+  - apply psum_pset.
+  - apply Z.ltb_ge in E. pose proof (en_amount_nonneg cur). rewrite Hz by lia. rewrite psum_pdel by exact Hnd. lia.
+Qed.
+
+Lemma keys_pset_in l u p x : In x (map fst (pset l u p)) -> x = u \/ In x (map fst l).
+Proof.
+  induction l as [|[u' p'] t IH]; simpl.
+  - intros [H|[]]; auto.
+  - destruct (u' =? u) eqn:E; simpl.
+    + apply Z.eqb_eq in E. subst. intros [H|H]; auto.
+    + intros [H|H]; auto. destruct (IH H); auto.
+Qed.
+
+Lemma nodup_pset l u p : NoDup (map fst l) -> NoDup (map fst (pset l u p)).
+Proof.
+  induction l as [|[u' p'] t IH]; simpl; intros Hnd.
+  - constructor; [intros [] | constructor].
+  - inversion Hnd as [|? ? Hnin Hnd']; subst.
+    destruct (u' =? u) eqn:E; simpl.
+    + apply Z.eqb_eq in E. subst. constructor; assumption.
+    + constructor; [|apply IH; assumption].
+      intros Hin. apply keys_pset_in in Hin. destruct Hin as [->|Hin]; [rewrite Z.eqb_refl in E; discriminate | contradiction].
+Qed.
+
+Lemma nodup_pdel l u : NoDup (map fst l) -> NoDup (map fst (pdel l u)).
+Proof.
+  unfold pdel. induction l as [|[u' p'] t IH]; simpl; intros Hnd; [constructor|].
+  inversion Hnd as [|? ? Hnin Hnd']; subst. destruct (u' =? u); simpl; [apply IH; assumption|].
+  constructor; [|apply IH; assumption]. intros Hin. apply Hnin.
+  clear - Hin. induction t as [|[u2 p2] t IH]; simpl in *; [exact Hin|].
+  destruct (u2 =? u); simpl in *; [right; apply IH; exact Hin | destruct Hin; [left; assumption | right; apply IH; assumption]].
+Qed.
+
+Lemma users_ok_progress_after L l u cur : users_ok L l -> 0 <= en_tok cur -> users_ok L (progress_after l u L cur).
+Proof.
+  intros (Hnd & Hall) Ht. split.
+  - unfold progress_after. destruct (0 <? en_amount cur); [apply nodup_pset | apply nodup_pdel]; exact Hnd.
+  - apply Forall_progress_after; [exact Hall|]. simpl. unfold u_tok; simpl. split; [exact Ht | lia].
+Qed.
+
+Lemma users_ok_mono L L' l : L <= L' -> users_ok L l -> users_ok L' l.
+Proof.
+  intros Hle (Hnd & Hall). split; [exact Hnd|]. eapply Forall_impl; [|exact Hall]. simpl. intros a (H1 & H2). split; lia.
+Qed.
+
+(** ------------------------------------------------------------------ bucket reallocation *)
+Lemma bucket_id_for_spec F e : 0 <= en_tok e ->
+  bucket_id_for F e = if r_live (en_amt e) (en_tok e) then Some (r_bkt F (en_amt e) (en_tok e)) else None.
+Proof.
+  intros Ht. unfold bucket_id_for, r_live, r_bkt. rewrite en_amount_max.
+  destruct (en_tok e =? 0) eqn:E0.
+  - apply Z.eqb_eq in E0. rewrite E0. rewrite Z.ltb_irrefl, andb_false_r. reflexivity.
+  - apply Z.eqb_neq in E0. assert (Etp : (0 <? en_tok e) = true) by (apply Z.ltb_lt; lia). rewrite Etp, andb_true_r.
+    destruct (0 <? en_amt e) eqn:Ea.
+    + apply Z.ltb_lt in Ea. rewrite Z.max_r by lia.
+      destruct (en_amt e =? 0) eqn:Ez; [apply Z.eqb_eq in Ez; lia|]. f_equal. lia.
+    + apply Z.ltb_ge in Ea. rewrite Z.max_l by lia. reflexivity.
+Qed.
+
+Lemma aget_aset_pt l k v b : aget (aset l k v) b = if k =? b then v else aget l b.
+Proof.
+  destruct (k =? b) eqn:E; [apply Z.eqb_eq in E; subst; apply aget_aset_same | apply Z.eqb_neq in E; apply aget_aset_other; exact E].
+Qed.
+
+Lemma sub_chk_ge a b : b <= a -> sub_chk a b = Ok (a - b).
+Proof. intros. unfold sub_chk. destruct (a <? b) eqn:E; [apply Z.ltb_lt in E; lia | reflexivity]. Qed.
+
+Lemma r_tokb_at F a t : r_live a t = true -> r_tokb F (r_bkt F a t) a t = t.
+Proof. intros El. unfold r_tokb. rewrite El, Z.eqb_refl. reflexivity. Qed.
+Lemma r_surb_at F a t : r_live a t = true -> r_surb F (r_bkt F a t) a t = a mod (t * WK).
+Proof. intros El. unfold r_surb. rewrite El, Z.eqb_refl. reflexivity. Qed.
+Lemma r_tokb_pt F b a t : r_live a t = true -> r_tokb F b a t = if r_bkt F a t =? b then t else 0.
+Proof. intros El. unfold r_tokb. rewrite El. reflexivity. Qed.
+Lemma r_surb_pt F b a t : r_live a t = true -> r_surb F b a t = if r_bkt F a t =? b then a mod (t * WK) else 0.
+Proof. intros El. unfold r_surb. rewrite El. reflexivity. Qed.
+Lemma r_dead F b a t : r_live a t = false -> r_tokb F b a t = 0 /\ r_surb F b a t = 0 /\ r_ltok a t = 0.
+Proof. intros El. unfold r_tokb, r_surb, r_ltok. rewrite El. repeat split. Qed.
+
+Lemma surplus_for_live e : r_live (en_amt e) (en_tok e) = true -> surplus_for e = en_amt e mod (en_tok e * WK).
+Proof.
+  intros El. unfold r_live in El. apply andb_prop in El. destruct El as (E1 & E2). apply Z.ltb_lt in E1. apply Z.ltb_lt in E2.
+  unfold surplus_for. destruct (en_tok e =? 0) eqn:Ez; [apply Z.eqb_eq in Ez; lia|].
+  rewrite en_amount_max, Z.max_r by lia. reflexivity.
+Qed.
+
+Lemma reallocate_spec s prev depl cur :
+  let F := w_first s in let a := en_amt depl in let t := en_tok depl in
+  let ac := en_amt cur in let tc := en_tok cur in
+  0 <= t -> en_tok prev = t -> 0 <= tc ->
+  (r_live a t = true -> surplus_for prev = a mod (t * WK)) ->
+  (forall b, r_tokb F b a t <= aget (w_btok s) b) ->
+  (forall b, r_surb F b a t <= aget (w_bsur s) b) ->
+  exists s', reallocate_bucket s prev depl cur = Ok (s', r_live a t, r_live ac tc) /\
+    w_prog s' = w_prog s /\ w_energy s' = w_energy s /\ w_tokens s' = w_tokens s /\ w_last s' = w_last s /\
+    w_rewards s' = w_rewards s /\ w_first s' = w_first s /\
+    (forall b, aget (w_btok s') b = aget (w_btok s) b - r_tokb F b a t + r_tokb F b ac tc) /\
+    (forall b, aget (w_bsur s') b = aget (w_bsur s) b - r_surb F b a t + r_surb F b ac tc).
+Proof.
+  intros F a t ac tc Ht Hpt Htc Hsur Hbt Hbs. unfold reallocate_bucket.
+  rewrite (bucket_id_for_spec _ depl Ht). fold a t F.
+  destruct (r_live a t) eqn:El.
+  - pose proof (Hbt (r_bkt F a t)) as H1. pose proof (Hbs (r_bkt F a t)) as H2.
+    rewrite r_tokb_at in H1 by exact El. rewrite r_surb_at in H2 by exact El.
+    rewrite Hpt, (Hsur eq_refl). rewrite (sub_chk_ge _ _ H1). simpl bind. rewrite (sub_chk_ge _ _ H2). simpl bind.
+    rewrite (bucket_id_for_spec _ cur Htc). fold ac tc F.
+    destruct (r_live ac tc) eqn:Ec.
+    + eexists. split; [reflexivity|]. simpl. repeat (split; [reflexivity|]).
+      rewrite (surplus_for_live cur Ec). fold ac tc.
+      split; intros b; rewrite !aget_aset_pt;
+        [rewrite (r_tokb_pt F b a t El), (r_tokb_pt F b ac tc Ec) | rewrite (r_surb_pt F b a t El), (r_surb_pt F b ac tc Ec)];
+        destruct (r_bkt F ac tc =? b) eqn:Eb; destruct (r_bkt F a t =? b) eqn:Eb2;
+        try (apply Z.eqb_eq in Eb; subst b); try (apply Z.eqb_eq in Eb2; try subst b); 
+        rewrite ?aget_aset_pt, ?Z.eqb_refl, ?Eb2, ?Z.eqb_refl; try lia.
+    + eexists. split; [reflexivity|]. simpl. repeat (split; [reflexivity|]).
+      destruct (r_dead F 0 ac tc Ec) as (_ & _ & _).
+      split; intros b; rewrite !aget_aset_pt;
+        [rewrite (r_tokb_pt F b a t El); destruct (r_dead F b ac tc Ec) as (-> & _ & _)
+        | rewrite (r_surb_pt F b a t El); destruct (r_dead F b ac tc Ec) as (_ & -> & _)];
+        destruct (r_bkt F a t =? b) eqn:Eb2; try (apply Z.eqb_eq in Eb2; subst b); lia.
+  - simpl bind. rewrite (bucket_id_for_spec _ cur Htc). fold ac tc F.
+    destruct (r_live ac tc) eqn:Ec.
+    + eexists. split; [reflexivity|]. simpl. repeat (split; [reflexivity|]).
+      rewrite (surplus_for_live cur Ec). fold ac tc.
+      split; intros b; rewrite !aget_aset_pt;
+        [rewrite (r_tokb_pt F b ac tc Ec); destruct (r_dead F b a t El) as (-> & _ & _)
+        | rewrite (r_surb_pt F b ac tc Ec); destruct (r_dead F b a t El) as (_ & -> & _)];
+        destruct (r_bkt F ac tc =? b) eqn:Eb; try (apply Z.eqb_eq in Eb; subst b); lia.
+    + eexists. split; [reflexivity|]. simpl. repeat (split; [reflexivity|]).
+      split; intros b; [destruct (r_dead F b a t El) as (-> & _ & _); destruct (r_dead F b ac tc Ec) as (-> & _ & _)
+                       | destruct (r_dead F b a t El) as (_ & -> & _); destruct (r_dead F b ac tc Ec) as (_ & -> & _)]; lia.
+Qed.
+
+(** ------------------------------------------------------------------ a user touch re-establishes the invariant *)
+Lemma c_nonneg L F b (l : list (Z * progress)) : Forall (fun up => 0 <= u_tok (snd up)) l ->
+  forall up, In up l -> 0 <= c_tokb L F b (snd up) /\ 0 <= c_surb L F b (snd up) /\ 0 <= c_ltok L (snd up) /\ 0 <= c_energy L (snd up).
+Proof.
+  intros Hall up Hin. rewrite Forall_forall in Hall. specialize (Hall _ Hin).
+  unfold c_tokb, c_surb, c_ltok, c_energy, r_tokb, r_surb, r_ltok.
+  pose proof (energy_at_nonneg (snd up) L). pose proof week_pos.
+  destruct (r_live (decay_amt (snd up) L) (u_tok (snd up))) eqn:El; simpl.
+  - unfold r_live in El. apply andb_prop in El. destruct El as (_ & E2). apply Z.ltb_lt in E2.
+    pose proof (Z.mod_pos_bound (decay_amt (snd up) L) (u_tok (snd up) * WK) ltac:(nia)).
+    destruct (r_bkt F (decay_amt (snd up) L) (u_tok (snd up)) =? b); repeat split; lia.
+  - repeat split; lia.
+Qed.
+
+Lemma f_old_le_psum f l u : (forall up, In up l -> 0 <= f (snd up)) -> 0 <= f_old f (pfind l u) <= psum f l.
+Proof.
+  intros Hf. destruct (pfind l u) as [p|] eqn:Ep; simpl.
+  - apply pfind_in in Ep. split; [apply (Hf _ Ep) | apply (psum_member f l u p Hf Ep)].
+  - split; [lia | apply psum_nonneg; exact Hf].
+Qed.
+
+Lemma update_global_rest s cw la prev cur s1 l u a t :
+  perform_weekly_update s cw = Ok s1 ->
+  l = w_prog s1 -> users_ok cw l -> 0 <= en_tok cur -> w_last s1 = cw -> la <= cw -> 0 <= t ->
+  BInv l cw (w_first s1) (w_btok s1) (w_bsur s1) (aget (w_tokens s1) cw) (aget (w_energy s1) cw) ->
+  (* the previous entry, depleted to the current week, has amount [a] and tokens [t] *)
+  en_tok prev = t ->
+  (let depl := if cw =? la then prev else en_deplete prev (en_epoch prev + (cw - la) * WK) in
+   en_amt depl = a /\ en_tok depl = t) ->
+  (r_live a t = true -> surplus_for prev = a mod (t * WK)) ->
+  (forall b, f_old (c_tokb cw (w_first s1) b) (pfind l u) = r_tokb (w_first s1) b a t) ->
+  (forall b, f_old (c_surb cw (w_first s1) b) (pfind l u) = r_surb (w_first s1) b a t) ->
+  f_old (c_ltok cw) (pfind l u) = r_ltok a t ->
+  f_old (c_energy cw) (pfind l u) = Z.max 0 a ->
+  exists s2, update_global_amounts s cw la prev cur = Ok s2 /\
+    w_prog s2 = l /\ w_last s2 = cw /\ w_first s2 = w_first s1 /\ w_rewards s2 = w_rewards s1 /\
+    (forall w, w <> cw -> aget (w_energy s2) w = aget (w_energy s1) w) /\
+    BInv (progress_after l u cw cur) cw (w_first s2) (w_btok s2) (w_bsur s2)
+         (aget (w_tokens s2) cw) (aget (w_energy s2) cw).
+Proof.
+  intros Hp Hl (Hnd & Hall) Htc Hlast Hla Ht Hinv Hpt Hdepl Hsur Hot Hos Hol Hoe.
+  unfold update_global_amounts. rewrite Hp. simpl bind.
+  assert (Ela : (la <=? cw) = true) by (apply Z.leb_le; exact Hla). rewrite Ela.
+  set (depl := if cw =? la then prev else en_deplete prev (en_epoch prev + (cw - la) * WK)) in *.
+  destruct Hdepl as (Hda & Hdt).
+  set (F := w_first s1) in *.
+  destruct Hinv as (Hb & HF & Hs & HT & HE).
+  assert (Hok : Forall (fun up => 0 <= u_tok (snd up)) l).
+  { eapply Forall_impl; [|exact Hall]. simpl. intros x (H1 & _). exact H1. }
+  assert (Hnn := c_nonneg cw F).
+  (* bounds for the bucket subtraction *)
+  assert (Hbt : forall b, r_tokb F b a t <= aget (w_btok s1) b).
+  { intros b. rewrite <- Hot.
+    destruct (f_old_le_psum (c_tokb cw F b) l u) as (_ & Hle); [intros up Hin; apply (Hnn b l Hok up Hin)|].
+    destruct (Z.eq_dec b F) as [->|Hne]; [lia | rewrite Hb by exact Hne; lia]. }
+  assert (Hbs : forall b, r_surb F b a t <= aget (w_bsur s1) b).
+  { intros b. rewrite <- Hos, Hs.
+    apply (f_old_le_psum (c_surb cw F b) l u). intros up Hin. apply (Hnn b l Hok up Hin). }
+  destruct (reallocate_spec s1 prev depl cur) as (s2 & Hre & r1 & r2 & r3 & r4 & r5 & r6 & Hbt2 & Hbs2);
+    try (rewrite ?Hda, ?Hdt; assumption).
+  rewrite Hda, Hdt in Hre, Hbt2, Hbs2. fold F in Hbt2, Hbs2.
+  rewrite Hre. simpl bind. rewrite r3.
+  set (ac := en_amt cur) in *. set (tc := en_tok cur) in *.
+  set (T := aget (w_tokens s1) cw) in *. set (E := aget (w_energy s1) cw) in *.
+  (* tokens *)
+  assert (HTge : r_ltok a t <= T).
+  { rewrite <- Hol.
+    destruct (f_old_le_psum (c_ltok cw) l u) as (_ & Hle); [intros up Hin; apply (Hnn F l Hok up Hin)|]. lia. }
+  assert (Htok : exists T2,
+     (if r_live a t && r_live ac tc then sub_chk (T + tc) (en_tok depl)
+      else if r_live a t then sub_chk T (en_tok depl)
+      else if r_live ac tc then Ok (T + tc) else Ok T) = Ok T2 /\ T2 = T + r_ltok ac tc - r_ltok a t).
+  { rewrite Hdt. unfold r_ltok in *. destruct (r_live a t); destruct (r_live ac tc); simpl.
+    - rewrite sub_chk_ge by lia. eexists; split; [reflexivity | lia].
+    - rewrite sub_chk_ge by lia. eexists; split; [reflexivity | lia].
+    - eexists; split; [reflexivity | lia].
+    - eexists; split; [reflexivity | lia]. }
+  destruct Htok as (T2 & HT2 & HT2v). rewrite HT2. simpl bind.
+  (* energy *)
+  assert (Hea : en_amount depl = Z.max 0 a) by (rewrite en_amount_max, Hda; reflexivity).
+  assert (HEge : Z.max 0 a <= E).
+  { rewrite <- Hoe, HE. apply (f_old_le_psum (c_energy cw) l u). intros up Hin. apply (Hnn F l Hok up Hin). }
+  replace (aget (w_energy s2) cw) with E by (unfold E; rewrite r2; reflexivity).
+  rewrite Hea. rewrite (sub_chk_ge _ _ HEge). simpl bind.
+  eexists. split; [reflexivity|]. simpl.
+  split; [congruence|]. split; [congruence|]. split; [exact r6|]. split; [exact r5|].
+  split; [intros w Hw; rewrite aget_aset_other by congruence; rewrite r2; reflexivity|].
+  rewrite !aget_aset_same, r6. fold F.
+  (* the new entry's contributions *)
+  set (pn := mkProg cur cw).
+  assert (Hdn : decay_amt pn cw = ac) by (unfold decay_amt, pn; simpl; fold ac; ring).
+  assert (Hz : en_amount cur = 0 -> r_live ac tc = false).
+  { rewrite en_amount_max. fold ac. intros Hm. unfold r_live. assert (E0 : (0 <? ac) = false) by (apply Z.ltb_ge; lia).
+    rewrite E0. reflexivity. }
+  assert (Hpa : forall f, (en_amount cur = 0 -> f pn = 0) ->
+                psum f (progress_after l u cw cur) = psum f l - f_old f (pfind l u) + f pn).
+  { intros f Hf. apply psum_progress_after; assumption. }
+  assert (Hpt' : forall b, psum (c_tokb cw F b) (progress_after l u cw cur) = psum (c_tokb cw F b) l - r_tokb F b a t + r_tokb F b ac tc).
+  { intros b. rewrite Hpa, Hot.
+    - replace (c_tokb cw F b pn) with (r_tokb F b ac tc); [reflexivity|]. unfold c_tokb. rewrite Hdn. reflexivity.
+    - intros Hc. unfold c_tokb. rewrite Hdn. apply (r_dead F b ac tc (Hz Hc)). }
+  assert (Hps' : forall b, psum (c_surb cw F b) (progress_after l u cw cur) = psum (c_surb cw F b) l - r_surb F b a t + r_surb F b ac tc).
+  { intros b. rewrite Hpa, Hos.
+    - replace (c_surb cw F b pn) with (r_surb F b ac tc); [reflexivity|]. unfold c_surb. rewrite Hdn. reflexivity.
+    - intros Hc. unfold c_surb. rewrite Hdn. apply (r_dead F b ac tc (Hz Hc)). }
+  assert (Hpl' : psum (c_ltok cw) (progress_after l u cw cur) = psum (c_ltok cw) l - r_ltok a t + r_ltok ac tc).
+  { rewrite Hpa, Hol.
+    - replace (c_ltok cw pn) with (r_ltok ac tc); [reflexivity|]. unfold c_ltok. rewrite Hdn. reflexivity.
+    - intros Hc. unfold c_ltok. rewrite Hdn. apply (r_dead F 0 ac tc (Hz Hc)). }
+  assert (Hpe' : psum (c_energy cw) (progress_after l u cw cur) = psum (c_energy cw) l - Z.max 0 a + en_amount cur).
+  { rewrite Hpa, Hoe.
+    - replace (c_energy cw pn) with (en_amount cur); [reflexivity|].
+      unfold c_energy, energy_at. rewrite Hdn, en_amount_max. reflexivity.
+    - intros Hc. unfold c_energy, energy_at. rewrite Hdn. rewrite en_amount_max in Hc. exact Hc. }
+  unfold BInv. split; [|split; [|split; [|split]]].
+  - intros b Hne. rewrite Hbt2, Hpt', Hb by exact Hne. reflexivity.
+  - rewrite Hbt2, Hpt'. lia.
+  - intros b. rewrite Hbs2, Hps', Hs. reflexivity.
+  - rewrite Hbt2, Hpl', Hpt', HT2v. lia.
+  - rewrite Hpe', <- HE. reflexivity.
+Qed.
+
+(** ------------------------------------------------------------------ the weekly-state invariant *)
+Definition zero_maps (s : wstate) : Prop :=
+  forall k, aget (w_energy s) k = 0 /\ aget (w_tokens s) k = 0 /\ aget (w_btok s) k = 0 /\ aget (w_bsur s) k = 0.
+
+(** invariant with respect to a user list [l] (the stored one, or — between the global update and the
+    write-back of the user's new progress — the list about to be stored) *)
+Definition WInvL (l : list (Z * progress)) (s : wstate) : Prop :=
+  users_ok (w_last s) l /\
+  BInv l (w_last s) (w_first s) (w_btok s) (w_bsur s) (aget (w_tokens s) (w_last s)) (aget (w_energy s) (w_last s)) /\
+  (w_last s = 0 -> l = [] /\ zero_maps s) /\
+  0 <= w_last s.
+
+Definition WInv (s : wstate) : Prop := WInvL (w_prog s) s.
+
+Lemma BInv_nil L F bt bs : (forall k, aget bt k = 0) -> (forall k, aget bs k = 0) -> BInv [] L F bt bs 0 0.
+Proof.
+  intros Hbt Hbs. unfold BInv; simpl. rewrite !Hbt. repeat split; intros; try rewrite Hbt; try rewrite Hbs; lia.
+Qed.
+
+Lemma init_w_inv : WInv init_w.
+Proof.
+  unfold WInv, WInvL, init_w; simpl. split; [split; constructor|]. split; [apply BInv_nil; reflexivity|].
+  split; [|lia]. intros _. split; [reflexivity|]. intros k. repeat split.
+Qed.
+
+Lemma weekly_update_spec s cw : WInv s -> w_last s <= cw -> 1 <= cw ->
+  exists s1, perform_weekly_update s cw = Ok s1 /\ w_prog s1 = w_prog s /\ w_last s1 = cw /\
+    users_ok cw (w_prog s) /\
+    BInv (w_prog s) cw (w_first s1) (w_btok s1) (w_bsur s1) (aget (w_tokens s1) cw) (aget (w_energy s1) cw).
+Proof.
+  intros (Hok & Hinv & Hzero & Hnn) Hle Hcw. unfold perform_weekly_update.
+  destruct (w_last s =? cw) eqn:E1.
+  - apply Z.eqb_eq in E1. exists s. rewrite E1 in *. split; [reflexivity|]. split; [reflexivity|]. split; [reflexivity|]. split; [exact Hok | exact Hinv].
+  - apply Z.eqb_neq in E1. destruct (w_last s =? 0) eqn:E2.
+    + apply Z.eqb_eq in E2. destruct (Hzero E2) as (Hnil & Hz). exists (set_last s cw). simpl.
+      split; [reflexivity|]. split; [reflexivity|]. split; [reflexivity|]. rewrite Hnil.
+      split; [split; constructor|].
+      destruct (Hz cw) as (-> & -> & _ & _). apply BInv_nil; intros k; apply (Hz k).
+    + apply Z.eqb_neq in E2. assert (Ele : (w_last s <=? cw) = true) by (apply Z.leb_le; lia). rewrite Ele.
+      assert (Hok' : Forall (fun up => 0 <= u_tok (snd up)) (w_prog s)).
+      { destruct Hok as (_ & Hall). eapply Forall_impl; [|exact Hall]. simpl. intros x (H1 & _). exact H1. }
+      destruct (shift_n (Z.to_nat (cw - w_last s)) _ _ _ _ _ _ _ Hok' Hinv) as (bt' & bs' & T' & E' & Hsh & Hinv').
+      rewrite Hsh. simpl bind.
+      replace (w_last s + Z.of_nat (Z.to_nat (cw - w_last s))) with cw in Hinv' by lia.
+      assert (Hu : users_ok cw (w_prog s)) by (apply (users_ok_mono (w_last s)); [lia | exact Hok]).
+      pose proof max_weeks_nonneg as HM.
+      destruct (USER_MAX_CLAIM_WEEKS + 1 <? cw) eqn:E4.
+      * eexists. split; [reflexivity|]. simpl. split; [reflexivity|]. split; [reflexivity|]. split; [exact Hu|].
+        rewrite aget_aset_same. rewrite aget_aset_other by lia. rewrite aget_aset_same. exact Hinv'.
+      * eexists. split; [reflexivity|]. simpl. split; [reflexivity|]. split; [reflexivity|]. split; [exact Hu|].
+        rewrite !aget_aset_same. exact Hinv'.
+Qed.
+
+Lemma update_user_energy_spec s cw u cur : WInv s -> w_last s <= cw -> 1 <= cw -> 0 <= en_tok cur ->
+  exists s2, update_user_energy s cw cur (pfind (w_prog s) u) = Ok s2 /\
+    w_prog s2 = w_prog s /\ WInvL (progress_after (w_prog s) u cw cur) s2 /\ w_last s2 = cw.
+Proof.
+  intros Hinv Hle Hcw Htc.
+  destruct (weekly_update_spec s cw Hinv Hle Hcw) as (s1 & Hp & Hpr & Hlast & Hu & Hb).
+  pose proof week_pos as HW.
+  unfold update_user_energy.
+  destruct (pfind (w_prog s) u) as [p|] eqn:Ep.
+  - assert (Hin : In (u, p) (w_prog s)) by (apply pfind_in; exact Ep).
+    destruct Hu as (Hnd & Hall). pose proof Hall as Hall'. rewrite Forall_forall in Hall'. destruct (Hall' _ Hin) as (Ht & Hw). simpl in Ht, Hw.
+    destruct (update_global_rest s cw (pr_week p) (pr_en p) cur s1 (w_prog s) u (decay_amt p cw) (u_tok p))
+      as (s2 & Hg & g1 & g2 & g3 & g4 & g5 & Hb2); try assumption; try (symmetry; assumption); try (split; assumption); try reflexivity.
+    + simpl. destruct (cw =? pr_week p) eqn:Ec.
+      * apply Z.eqb_eq in Ec. unfold decay_amt, u_tok. split; [rewrite Ec; ring | reflexivity].
+      * rewrite deplete_fwd by (unfold u_tok in Ht; nia). simpl. unfold decay_amt, u_tok. split; [ring | reflexivity].
+    + intros El. unfold r_live in El. apply andb_prop in El. destruct El as (E1 & E2). apply Z.ltb_lt in E1. apply Z.ltb_lt in E2.
+      unfold surplus_for. fold (u_tok p). destruct (u_tok p =? 0) eqn:Ez; [apply Z.eqb_eq in Ez; lia|].
+      unfold decay_amt in *. fold (u_tok p) in *.
+      assert (Hpos : 0 < en_amt (pr_en p)) by nia.
+      rewrite en_amount_max, Z.max_r by lia.
+      replace (en_amt (pr_en p)) with (en_amt (pr_en p) - WK * u_tok p * (cw - pr_week p) + (cw - pr_week p) * (u_tok p * WK)) at 1 by ring.
+      apply Z.mod_add. nia.
+    + rewrite Ep. reflexivity.
+    + rewrite Ep. reflexivity.
+    + rewrite Ep. reflexivity.
+    + rewrite Ep. reflexivity.
+    + exists s2. split; [exact Hg|]. split; [congruence|]. split; [|exact g2].
+      unfold WInvL. rewrite g2. split; [apply users_ok_progress_after; [split; assumption | exact Htc]|].
+      split; [exact Hb2|]. split; [intros Hc; lia | lia].
+  - destruct (update_global_rest s cw 0 en_default cur s1 (w_prog s) u 0 0)
+      as (s2 & Hg & g1 & g2 & g3 & g4 & g5 & Hb2); try assumption; try (symmetry; assumption); try reflexivity; try lia.
+    + simpl. destruct (cw =? 0) eqn:Ec; [apply Z.eqb_eq in Ec; lia|].
+      unfold en_deplete, en_default; simpl. destruct ((cw - 0) * WK); simpl; split; reflexivity.
+    + intros b. rewrite Ep. reflexivity.
+    + intros b. rewrite Ep. reflexivity.
+    + rewrite Ep. reflexivity.
+    + rewrite Ep. reflexivity.
+    + exists s2. split; [exact Hg|]. split; [congruence|]. split; [|exact g2].
+      unfold WInvL. rewrite g2. split; [apply users_ok_progress_after; [exact Hu | exact Htc]|].
+      split; [exact Hb2|]. split; [intros Hc; lia | lia].
+Qed.
+
+Lemma WInvL_frame l s s' : same_but_rewards s s' -> WInvL l s -> WInvL l s'.
+Proof.
+  intros (f1 & f2 & f3 & f4 & f5 & f6 & f7) (H1 & H2 & H3 & H4). unfold WInvL, zero_maps in *.
+  rewrite f2, f3, f4, f5, f6, f7. split; [exact H1|]. split; [exact H2|]. split; [exact H3 | exact H4].
+Qed.
+
+Lemma WInv_store l s u cw cur : w_prog (store_progress s u cw cur) = l ->
+  WInvL l s -> WInv (store_progress s u cw cur).
+Proof.
+  intros Hl Hinv. unfold WInv. rewrite Hl.
+  assert (Hsame : forall s0 l0, WInvL l (set_prog s0 l0) <-> WInvL l s0) by (intros; unfold WInvL, zero_maps; simpl; tauto).
+  unfold store_progress in *. destruct (0 <? en_amount cur); apply Hsame; exact Hinv.
+Qed.
+
+(** any claim keeps the invariant (any hook that only touches the host and the frozen totals) and its
+    global update never fails *)
+Section ClaimInv.
+  Variable H : Type.
+  Variable hook : H -> wstate -> Z -> Z -> Z -> result (H * wstate * list (Z * Z)).
+  Hypothesis hook_frame : forall h s w e E h' s' r, hook h s w e E = Ok (h', s', r) -> same_but_rewards s s'.
+
+  Lemma claim_multi_inv h s user cw cur h' s' det :
+    WInv s -> w_last s <= cw -> 1 <= cw -> 0 <= en_tok cur ->
+    claim_multi H hook h s user cw cur = Ok (h', s', det) -> WInv s' /\ w_last s' = cw.
+  Proof.
+    intros Hinv Hle Hcw Htc Hc.
+    assert (Hwfu : forall p, pfind (w_prog s) user = Some p -> 0 <= en_tok (pr_en p)).
+    { intros p Hp. apply pfind_in in Hp. destruct Hinv as ((_ & Hall) & _). rewrite Forall_forall in Hall. apply (Hall _ Hp). }
+    destruct (claim_multi_spec H hook hook_frame _ _ _ _ _ _ _ _ Hwfu Hc) as (s1 & s2 & Hu & Hsbr & Hs' & Hpa & _).
+    destruct (update_user_energy_spec s cw user cur Hinv Hle Hcw Htc) as (s1' & Hu' & _ & Hl & Hlast).
+    rewrite Hu in Hu'. inversion Hu'; subst s1'.
+    split.
+    - rewrite Hs'. apply (WInv_store (progress_after (w_prog s) user cw cur)).
+      + rewrite <- Hs'. exact Hpa.
+      + apply (WInvL_frame _ s1); assumption.
+    - rewrite Hs'. destruct Hsbr as (_ & _ & _ & f4 & _).
+      unfold store_progress. destruct (0 <? en_amount cur); simpl; congruence.
+  Qed.
+End ClaimInv.
+
+Lemma update_energy_and_progress_inv s user cw cur s' :
+  WInv s -> w_last s <= cw -> 1 <= cw -> 0 <= en_tok cur ->
+  update_energy_and_progress s user cw cur = Ok s' -> WInv s' /\ w_last s' = cw.
+Proof.
+  intros Hinv Hle Hcw Htc Hu. unfold update_energy_and_progress in Hu.
+  apply bind_ok in Hu. destruct Hu as (s1 & Hu & Heq). inversion Heq; subst s'; clear Heq.
+  destruct (update_user_energy_spec s cw user cur Hinv Hle Hcw Htc) as (s1' & Hu' & Hpr & Hl & Hlast).
+  rewrite Hu in Hu'. inversion Hu'; subst s1'. split.
+  - apply (WInv_store (progress_after (w_prog s) user cw cur)); [rewrite store_progress_prog, Hpr; reflexivity | exact Hl].
+  - unfold store_progress. destruct (0 <? en_amount cur); simpl; exact Hlast.
+Qed.
+
+(** ------------------------------------------------------------------ the collector's reachable states *)
+Definition FInv (f : fc) : Prop := FWf f /\ WInv (fc_w f) /\ w_last (fc_w f) <= cur_week f.
+
+Lemma init_finv epoch : FInv (init_fc epoch).
+Proof.
+  split; [apply init_wf|]. split; [apply init_w_inv|]. simpl. unfold cur_week; simpl.
+  rewrite Z.sub_diag. pose proof week_pos. rewrite Z.div_0_l by lia. lia.
+Qed.
+
+Lemma claim_rewards_w f dest user f' outs det :
+  claim_rewards f dest user = Ok (f', outs, det) ->
+  exists cw h2, current_week f = Ok cw /\
+    claim_multi fhost fc_hook (fc_h (accumulate_additional f cw)) (fc_w f) user cw (energy_entry f user) = Ok (h2, fc_w f', det).
+Proof.
+  unfold claim_rewards. intros Heq. apply bind_ok in Heq. destruct Heq as (cw & Hcw & Heq).
+  apply bind_ok in Heq. destruct Heq as ([[h2 w2] det2] & Hcm & Heq).
+  apply bind_ok in Heq. destruct Heq as (bal' & _ & Heq). inversion Heq; subst; clear Heq.
+  exists cw, h2. split; [exact Hcw|]. rewrite accumulate_additional_w, energy_entry_accumulate in Hcm. exact Hcm.
+Qed.
+
+Lemma step_finv f op f' outs det : FInv f -> step f op = Ok (f', outs, det) -> FInv f'.
+Proof.
+  intros (Hwf & Hinv & Hle) Hs. split; [eapply step_wf; eassumption|].
+  destruct (quiet op) eqn:Eq.
+  - destruct (quiet_frame _ _ _ _ _ Eq Hs) as (Hw & He & Hfe & _). unfold cur_week. rewrite Hw, He, Hfe. split; assumption.
+  - destruct op; try discriminate; simpl in Hs.
+    + unfold ep_advance in Hs. destruct (0 <=? n) eqn:En; [|discriminate]. apply Z.leb_le in En.
+      inversion Hs; subst; clear Hs. simpl. split; [exact Hinv|]. unfold cur_week in *; simpl.
+      pose proof week_pos. pose proof (Z.div_le_mono (fc_epoch f - fc_first_epoch f) (fc_epoch f + n - fc_first_epoch f) WK). lia.
+    + destruct (ep_claim_inv _ _ _ _ _ _ _ Hs) as (_ & dest & Hc).
+      destruct (claim_rewards_w _ _ _ _ _ _ Hc) as (cw & h2 & Hcw & Hcm).
+      destruct (claim_rewards_env _ _ _ _ _ _ Hc) as (e1 & e2 & _).
+      pose proof (current_week_cur _ _ Hcw) as Hcur.
+      assert (Hpos : 1 <= cw) by (apply (week_for_epoch_pos _ _ _ Hcw)).
+      destruct Hwf as (cw0 & Hcw0 & _ & Hfac & _).
+      assert (Hle2 : w_last (fc_w f) <= cw) by lia.
+      destruct (claim_multi_inv fhost fc_hook fc_hook_frame _ _ _ _ _ _ _ _ Hinv Hle2 Hpos
+                  (energy_entry_tok f _ Hfac) Hcm) as (Hinv' & Hlast).
+      split; [exact Hinv'|]. unfold cur_week. rewrite e1, e2. fold (cur_week f). lia.
+    + unfold ep_update_energy in Hs. destruct Hwf as (cw & Hcw & _ & Hfac & _). rewrite Hcw in Hs. simpl bind in Hs.
+      apply bind_ok in Hs. destruct Hs as (w' & Hu & Hs). inversion Hs; subst; clear Hs.
+      unfold update_energy_for_user in Hu. destruct (match pfind _ u with Some p => pr_week p =? cw | None => true end); [|discriminate].
+      pose proof (current_week_cur _ _ Hcw) as Hcur.
+      assert (Hpos : 1 <= cw) by (apply (week_for_epoch_pos _ _ _ Hcw)).
+      assert (Hle2 : w_last (fc_w f) <= cw) by lia.
+      destruct (update_energy_and_progress_inv _ _ _ _ _ Hinv Hle2 Hpos (energy_entry_tok f u Hfac) Hu) as (Hinv' & Hlast).
+      simpl. split; [exact Hinv'|]. unfold cur_week; simpl. fold (cur_week f). lia.
+Qed.
+
+Lemma step_total_finv f op : FInv f -> FInv (step_total f op).
+Proof.
+  intros Hi. unfold step_total. destruct (step f op) as [[[f' o] d]|] eqn:E; [|exact Hi].
+  eapply step_finv; eassumption.
+Qed.
+
+Lemma run_finv ops : forall f, FInv f -> FInv (run f ops).
+Proof.
+  unfold run. induction ops as [|op t IH]; intros f Hi; simpl; [exact Hi|]. apply IH. apply step_total_finv. exact Hi.
+Qed.
+
+(** the total energy of the last globally updated week is the sum of all recorded entries decayed to it *)
+Lemma total_energy_sum f : FInv f ->
+  view_total_energy f (view_last_global f) =
+  psum (fun p => energy_at p (view_last_global f)) (w_prog (fc_w f)).
+Proof. intros (_ & (_ & (_ & _ & _ & _ & HE) & _) & _). exact HE. Qed.
